@@ -747,9 +747,9 @@ def run_case(case, ctx):
                     # the model may be out of sync with a partially applied call: stop this history
                     break
                 if out == "refused":
-                    # the retry may have created entities the skeleton does not know: rescan-free
-                    # approach - later ops address entities by name, which still works
-                    pass
+                    # the valid retry may have created entities the skeleton does not know: from here
+                    # on later ops address entities by name / id only (positions are off by the unknowns)
+                    it.positional_ok = False
             else:
                 st_ = it.step(step)
                 if st_ == "ok":
@@ -772,14 +772,14 @@ def run_case(case, ctx):
 
 def case_strategy():
     S = ops.op_strategies(["sig", "a", "b"])
-    valid = st.one_of([S[n] for n in VALID_OPS])
+    valid = gen.weighted([S[n] for n in VALID_OPS])
     inj = st.fixed_dictionaries({"site": st.sampled_from(SITES), "n": st.integers(0, 7)})
     def ensure(steps, extra, pos):
         if not any("site" in s for s in steps):
             steps = list(steps)
             steps.insert(pos % (len(steps) + 1), extra)
         return {"steps": steps}
-    return st.builds(ensure, st.lists(st.one_of(valid, valid, inj), min_size=10, max_size=24), inj, st.integers(0, 30))
+    return st.builds(ensure, st.lists(gen.weighted([valid, valid, inj]), min_size=10, max_size=24), inj, st.integers(0, 30))
 
 
 def shards(tier, seed):
